@@ -62,25 +62,25 @@ func OptN(ok bool, x uint64) string {
 // Case is one correspondence case.
 type Case struct {
 	Idx      int         `json:"idx"`
-	Scenario string      `json:"scenario"`       // generator stream / what the case exercises
-	Trivial  bool        `json:"trivial"`        // by the property's stated rule
-	Input    interface{} `json:"input"`          // replayable description
-	Observed interface{} `json:"observed"`       // what the implementation did
-	Coq      string      `json:"-"`              // Coq term for this case (without idx)
+	Scenario string      `json:"scenario"`         // generator stream / what the case exercises
+	Trivial  bool        `json:"trivial"`          // by the property's stated rule
+	Input    interface{} `json:"input"`            // replayable description
+	Observed interface{} `json:"observed"`         // what the implementation did
+	Coq      string      `json:"-"`                // Coq term for this case (without idx)
 	Direct   string      `json:"direct,omitempty"` // non-empty: the harness itself saw a property violation (panic, hang ...)
 }
 
 // Out collects cases and writes shards + metadata.
 type Out struct {
-	Dir      string
-	Prop     string
-	Runner   string // Coq module, e.g. V.Corr.Run_C11
-	CaseType string // Coq type of a case
-	Rule     string
-	Cases    []Case
-	Hist     map[string]int
-	Extra    map[string]interface{}
-	ShardMax int
+	Dir        string
+	Prop       string
+	Runner     string // Coq module, e.g. V.Corr.Run_C11
+	CaseType   string // Coq type of a case
+	Rule       string
+	Cases      []Case
+	Hist       map[string]int
+	Extra      map[string]interface{}
+	ShardMax   int
 	ShardBytes int
 	Scope      string
 }
